@@ -12,6 +12,8 @@ namespace Driver.Opt
                    ("pinned": true uses the pre-fix list `append`)
    * "pipeline" -> overwrite_defaults(ini) ; parse ; update_defaults(dodo): {"wf","res","exit"}
                    ("exit": what DoitMain.run returns / does: 0, 3, or 1 = uncaught exception with "pinned": true)
+   * "prepipeline" -> loader options before the command name ("lspec", "pre") applied as `opt_vals`:
+                   {"wf","pre_ok","setup" (params at loader.setup),"res" (after DOIT_CONFIG),"optvals","exit"}
    * "spec"     -> `asgs` (structured assignments), `sep` (bool), `pos`: the argv `render` builds, whether the
                    hypotheses of the round-trip theorem hold, and the value the *specification* gives every option:
                    {"argv","hyp_ok","wf","expect": {"err":true} | {"vals":[[name,VAL]],"pos":[...]}}
@@ -137,6 +139,21 @@ def handle (j : Json) : Json :=
     | "pipeline" =>
       Json.mkObj [("wf", wf), ("res", resJson names (pipeline spec ini dodo env argv)),
                   ("exit", toJson (runMain (jbool j "pinned") spec ini dodo env argv).kind)]
+    | "prepipeline" =>
+      -- "lspec": the loader's own option table, "pre": the tokens in front of the command name
+      match (jarr j "lspec").mapM optOf with
+      | none => Driver.err "bad lspec"
+      | some lspec =>
+        match optVals lspec ((jstrs j "pre").map s2l) with
+        | none => Json.mkObj [("wf", wf), ("pre_ok", Json.bool false)]
+        | some ov =>
+          let r := pipelinePre spec ov ini dodo env argv
+          let setup : Except Err (Params × List Str) := r.map fun x => (x.1, x.2.2)
+          let final : Except Err (Params × List Str) := r.map fun x => (x.2.1, x.2.2)
+          Json.mkObj [("wf", wf), ("pre_ok", Json.bool true), ("setup", resJson names setup),
+                      ("res", resJson names final),
+                      ("optvals", mkArr (ov.map fun kv => mkArr [Json.str (l2s kv.1), valJson kv.2])),
+                      ("exit", toJson (match r with | .ok _ => (0 : Nat) | .error _ => 3))]
     | "spec" =>
       match (jarr j "asgs").mapM asgOf with
       | none => Driver.err "bad asg"
